@@ -471,12 +471,20 @@ func genM1(r *rand.Rand, p Profile, id string) Case {
 			t.dirty = false
 			obs(r, g, t, false, &ops)
 		case "dvfrom":
-			// load an older version, delete everything above it WITHOUT reloading, go on writing
+			// load an older version, (write without committing,) delete everything above it WITHOUT
+			// reloading, go on writing
 			if len(t.versions) < 2 || t.dirty {
 				continue
 			}
 			v0 := t.versions[r.Intn(len(t.versions)-1)]
-			ops = append(ops, []string{"load", i64(v0)}, []string{"dvfrom", i64(v0 + 1)})
+			ops = append(ops, []string{"load", i64(v0)})
+			if r.Intn(2) == 0 {
+				ops = append(ops, []string{"set", hx(g.key()), hx([]byte("uncommitted"))}, []string{"rm", hx(g.key())})
+			}
+			ops = append(ops, []string{"dvfrom", i64(v0 + 1)})
+			if r.Intn(3) == 0 {
+				ops = append(ops, []string{"rollback"})
+			}
 			var keep []int64
 			for _, w := range t.versions {
 				if w <= v0 {
